@@ -24,8 +24,16 @@ HERE = Path(__file__).resolve().parent.parent
 sys.path.insert(0, str(HERE))
 
 VENV_PY = "/venv/bin/python"
-OUT = HERE / "out"
-EVID = HERE / "evidence"
+OUT = Path(os.environ.get("VERIF_OUT_DIR", HERE / "out"))
+EVID = Path(os.environ.get("VERIF_EVIDENCE_DIR", HERE / "evidence"))
+REPO = os.environ.get("GOTRANX_REPO", "/repo")  # the tree under test (default: /repo's working tree)
+
+
+def _oracle_env():
+    env = dict(os.environ, PYTHONDONTWRITEBYTECODE="1")
+    if REPO != "/repo":
+        env["PYTHONPATH"] = f"{REPO}/src" + (":" + env["PYTHONPATH"] if env.get("PYTHONPATH") else "")
+    return env
 
 
 def selftest_tools() -> int:
@@ -118,7 +126,7 @@ def run_oracle(pid, tier, seed, focus=None, max_seconds=None):
     t0 = time.time()
     try:
         p = subprocess.run(cmd, capture_output=True, text=True, timeout=(max_seconds or (90 if tier == "quick" else 900)) + 120,
-                           env=dict(os.environ, PYTHONDONTWRITEBYTECODE="1"))
+                           env=_oracle_env())
         if not out.exists():
             return {"harness_error": f"no output; rc={p.returncode}; stderr={p.stderr[-1500:]}", "failures": [], "cases": 0,
                     "distinct_nontrivial": 0, "rule": "", "samples": [], "errors": [], "wall_s": time.time() - t0}
@@ -255,7 +263,7 @@ def check_property(pid: str, tier: str) -> int:
             tmp = OUT / "replay" / f"known_{pid}_{abs(hash(key)) % 10**8}.json"
             tmp.write_text(json.dumps({"property": pid, "failure": {"signature": kf["match"], "input": kf["witness"]}}, default=str))
             try:
-                p = subprocess.run([VENV_PY, str(HERE / "replay" / "run.py"), "--replay", str(tmp)], capture_output=True, text=True, timeout=120)
+                p = subprocess.run([VENV_PY, str(HERE / "replay" / "run.py"), "--replay", str(tmp)], capture_output=True, text=True, timeout=120, env=_oracle_env())
                 return key, kf, '"still_fails": true' in p.stdout
             except subprocess.TimeoutExpired:
                 return key, kf, "hang" in kf["match"]
@@ -299,6 +307,24 @@ def check_property(pid: str, tier: str) -> int:
                                     "replay_cmd": f"./check --replay {path}"}, indent=1, default=str))
         lines.append(f"VIOLATION property={pid} replay={path}")
         lines.append(f"  bounded oracle: {f.get('signature')}: {f.get('what', '')}")
+    if undecided and not vcount and oracle is not None and P.get("oracle", True):
+        # a function could not be decided (sidecar no longer matches the source, construct outside the subset, solver
+        # unknown): search harder for a concrete failing input before giving up
+        for extra_seed in (seed + 1, seed + 2):
+            o2 = run_oracle(pid, tier, extra_seed)
+            fresh_f = [f for f in o2.get("failures", []) if known_for_signature(f.get("signature", "")) is None]
+            for f in fresh_f:
+                if f.get("signature") in reported_sigs:
+                    continue
+                reported_sigs.add(f.get("signature"))
+                vcount += 1
+                path = OUT / "replay" / f"{pid}_oracle_{vcount}.json"
+                path.write_text(json.dumps({"property": pid, "kind": "bounded-oracle-failure", "undecided": undecided[:5], "failure": f,
+                                            "replay_cmd": f"./check --replay {path}"}, indent=1, default=str))
+                lines.append(f"VIOLATION property={pid} replay={path}")
+                lines.append(f"  bounded oracle (after an undecided obligation): {f.get('signature')}: {f.get('what', '')}")
+            if fresh_f:
+                break
     for u in undecided:
         lines.append(f"UNDECIDED property={pid} {u[:400]}")
     for e in errors:
@@ -369,7 +395,7 @@ def replay(path: str) -> int:
         return 0
     tmp = OUT / "replay_tmp.json"
     tmp.write_text(json.dumps({"property": doc["property"], "failure": f}))
-    p = subprocess.run([VENV_PY, str(HERE / "replay" / "run.py"), "--replay", str(tmp)], capture_output=True, text=True)
+    p = subprocess.run([VENV_PY, str(HERE / "replay" / "run.py"), "--replay", str(tmp)], capture_output=True, text=True, env=_oracle_env())
     print(p.stdout[-4000:])
     if p.returncode != 0:
         print(p.stderr[-2000:])
